@@ -292,8 +292,25 @@ def explore(rng, name="w"):
     if rng.random() < 0.12:
         opts["deadlineAfter"] = rng.randrange(1, len(pods) + 1)      # the Solve deadline expires right after that many pods were placed
     scs, pvs, pvcs = sc.gen_storage(rng)
+    maybe_partial_gen(rng, types, pools, dss, pods)
     return {"name": name, "options": opts, "types": types, "pools": pools, "nodes": nodes, "ds": dss, "scs": scs, "pvs": pvs, "pvcs": pvcs,
             "pods": bound + pods}
+
+
+def maybe_partial_gen(rng, types, pools, dss, pods):
+    """a catalog in which the `gen` label is DEFINED only on some instance types (often not on the cheapest) under a `gen` minValues floor -
+    only when nothing else in the scenario reads gen (a pod / daemonset / pool bound on a label some types lack is outside the exact alphabet)"""
+    import json
+    if rng.random() >= 0.15 or len(types) < 3 or '"gen"' in json.dumps([pods, dss]):
+        return
+    if any(r["key"] == "gen" and r["op"] != "Exists" for p in pools for r in p["reqs"]):
+        return
+    by_price = sorted(types, key=lambda t: min(o["price"] for o in t["offerings"]))
+    drop = by_price[:rng.choice([1, 2])] if rng.random() < 0.7 else rng.sample(types, rng.choice([1, 2]))
+    for t in drop:
+        t["labels"].pop("gen", None)
+    if not any(r["key"] == "gen" for p in pools for r in p["reqs"]):
+        rng.choice(pools)["reqs"].append({"key": "gen", "op": "Exists", "vals": [], "n": 0, "min": 2})
 
 
 # ---------------------------------------------------------------- directed cells (always replayed)
@@ -305,6 +322,7 @@ def _off(z, ct, price, av=True, rid="", rcap=0):
 def _type(name, cpu, mem, offs, **lab):
     labels = {"arch": "amd64", "os": "linux", "gen": "2"}
     labels.update(lab)
+    labels = {k: v for k, v in labels.items() if v is not None}       # gen=None: the type does not DEFINE the label
     return {"name": name, "cpu": cpu, "mem": mem, "pods": 110, "labels": labels, "ovCpu": 0, "ovMem": 0, "offerings": offs}
 
 
@@ -462,6 +480,19 @@ def truncation_cells():
                         pool = _pool("p0", 0, reqs=[{"key": key, "op": "Exists", "vals": [], "n": 0, "min": 2}])
                         out.append(_scn("cell/truncate-floor/%s-%s-%s-max%d-%s" % (cn, on, key, mt, pol), types, [pool],
                                         [dict(sc.plain_pod("w0", 3000, 256))], maxTypes=mt, minValues=pol))
+    # the floor's key is DEFINED only on some instance types (gen missing on the two cheapest / the two dearest): a type without the key
+    # contributes no value, wherever it stands in the provider order or in the price order
+    partial = {"cheapest-lack": [(50, None), (60, None), (70, "2"), (300, "3"), (400, "4")],
+               "dearest-lack": [(50, "2"), (60, "2"), (70, "3"), (300, None), (400, None)],
+               "one-value-only": [(50, None), (60, "2"), (70, None), (300, "2"), (400, None)]}
+    for cn, cat in partial.items():
+        for on, order in orders.items():
+            types = [_type("ABCDE"[i], 4000, 8192, [_off("a", "od", cat[i][0])], gen=cat[i][1]) for i in order]
+            for mt in (2, 3):
+                for pol in ("Strict", "BestEffort"):
+                    pool = _pool("p0", 0, reqs=[{"key": "gen", "op": "Exists", "vals": [], "n": 0, "min": 2}])
+                    out.append(_scn("cell/truncate-floor/partial-%s-%s-gen-max%d-%s" % (cn, on, mt, pol), types, [pool],
+                                    [dict(sc.plain_pod("w0", 3000, 256))], maxTypes=mt, minValues=pol))
     return out
 
 
